@@ -126,7 +126,17 @@ def run(R, tier, seed, driver_ok):
             X, y = zoo.blobs(rng, dd, n_classes, n_per)
             cfgs = configs(name, rng, dd, n_classes, thorough)
             if not thorough and len(cfgs) > 10:
-                cfgs = [cfgs[i] for i in sorted(rng.choice(len(cfgs), 10, replace=False))]
+                keep = set(rng.choice(len(cfgs), 10, replace=False).tolist())
+                # stratify: every value of every string-valued option, once with a reduced and once with the full dimension
+                seen = set()
+                for i_, c_ in enumerate(cfgs):
+                    for k_, v_ in c_.items():
+                        if isinstance(v_, str):
+                            nc_ = c_.get('n_components')
+                            tag = (k_, v_, 'reduced' if (nc_ is not None and nc_ < dd) else 'full')
+                            if tag not in seen:
+                                seen.add(tag); keep.add(i_)
+                cfgs = [cfgs[i] for i in sorted(keep)]
             for cfg in cfgs:
                 label = name
                 desc = {k: (v if not isinstance(v, np.ndarray) else f'array{v.shape}') for k, v in cfg.items()}
